@@ -273,10 +273,15 @@ fn dispatch(p: &FitPt, xs: &[f64], ys: &[f64], start: &[f64], analytic: bool, bu
 fn starts(m: usize) -> Vec<Vec<f64>> {
     let t = truth(m);
     let v = t.len();
+    // the last two starts of every model are close to the truth (initial sum of squares below the usual FD widths
+    // but far above the tolerances): a start that is nearly right must still be refined to the tolerance
     if m <= 3 {
-        vec![vec![0.0; v], t.iter().map(|x| x + 0.5).collect(), vec![1.0; v]]
+        vec![vec![0.0; v], t.iter().map(|x| x + 0.5).collect(), vec![1.0; v], t.iter().map(|x| x + 0.01).collect(), t.iter().enumerate().map(|(i, x)| x + if i % 2 == 0 { 0.003 } else { -0.003 }).collect()]
     } else {
-        (0..1usize << v).map(|mask| t.iter().enumerate().map(|(i, x)| x * if mask >> i & 1 == 1 { 1.2 } else { 0.8 }).collect()).collect()
+        let mut s: Vec<Vec<f64>> = (0..1usize << v).map(|mask| t.iter().enumerate().map(|(i, x)| x * if mask >> i & 1 == 1 { 1.2 } else { 0.8 }).collect()).collect();
+        s.push(t.iter().map(|x| x * 1.02).collect());
+        s.push(t.iter().enumerate().map(|(i, x)| x * if i % 2 == 0 { 0.995 } else { 1.005 }).collect());
+        s
     }
 }
 impl Check for CurveFit {
@@ -285,11 +290,11 @@ impl Check for CurveFit {
         "curve-fit"
     }
     fn rule(&self) -> String {
-        format!("models {:?} x abscissa family x n x noise (linear models only) x every start (linear: 3 fixed; non-linear: all 2^V corners at +-20% of the truth) x tolerance x FD width x (damping, multiplier); both Jacobian variants run on every point; signature = (model, outcome class of each variant, iteration-count class)", MODELS)
+        format!("models {:?} x abscissa family x n x noise (linear models only) x every start (linear: 3 fixed and 2 near the truth; non-linear: all 2^V corners at +-20% of the truth and 2 starts within 2%) x tolerance x FD width x (damping, multiplier); both Jacobian variants run on every point; signature = (model, outcome class of each variant, iteration-count class)", MODELS)
     }
     fn axes(&self, t: Tier) -> Value {
         json!({"models": MODELS, "family": t.pick(vec![0,2], vec![0,1,2,3]), "n": t.pick(vec![12, 60], vec![5, 12, 30, 60]), "noise": [0.0, 0.05],
-               "tolerance": t.pick(vec![1e-6, 1e-12], vec![1e-6, 1e-9, 1e-12]), "h": t.pick(vec![1e-2], vec![1e-2, 1e-4]), "damping x mult": format!("{:?}", damp_grid(t))})
+               "tolerance": t.pick(vec![1e-6, 1e-12], vec![1e-6, 1e-9, 1e-12]), "h": t.pick(vec![1e-2], vec![1e-1, 1e-2, 1e-4]), "damping x mult": format!("{:?}", damp_grid(t))})
     }
     fn points(&self, t: Tier) -> Vec<FitPt> {
         let mut v = vec![];
@@ -302,7 +307,7 @@ impl Check for CurveFit {
                         }
                         for start in 0..starts(model).len() {
                             for &tol in &t.pick(vec![1e-6, 1e-12], vec![1e-6, 1e-9, 1e-12]) {
-                                for &h in &t.pick(vec![1e-2], vec![1e-2, 1e-4]) {
+                                for &h in &t.pick(vec![1e-2], vec![1e-1, 1e-2, 1e-4]) {
                                     for &(damping, mult) in &damp_grid(t) {
                                         if t == Tier::Thorough && !DAMP.contains(&(damping, mult)) && (kind % 2 == 1 || n == 30 || start > 1 && model > 3) {
                                             continue;
